@@ -1,4 +1,4 @@
-//@@ unit props=C16,C18,C14,C06
+//@@ unit props=C16,C18,C14,C06 rlimit=80
 // Unit names: xls defined names (src/xls.rs parse_defined_names + the Lbl / ExternSheet arms of Xls::parse_workbook) and the
 // VBA project reference list (src/vba.rs Reference::from_stream), verbatim text.
 #![feature(allocator_api)]
@@ -224,6 +224,7 @@ verif_opaque_string()
                     //# C16.ref3d_relative_flags_not_decoded
                     assert(absolute_cf(u16_at(g, 5)));
                     lemma_absolute_fields(u16_at(g, 5) as u16);
+                    //# C16.ref3d_text
                     assert(f@ =~= ref3d_text(g));
                 }
             }
@@ -244,6 +245,7 @@ verif_opaque_string()
                     //# C16.area3d_relative_flags_not_decoded
                     assert(absolute_cf(u16_at(g, 7)));
                     lemma_absolute_fields(u16_at(g, 7) as u16);
+                    //# C16.area3d_text
                     assert(p1 =~= cell_text(u16_at(g, 7), u16_at(g, 3)));
                 }
             }
@@ -254,6 +256,7 @@ verif_opaque_string()
                     //# C16.area3d_relative_flags_not_decoded
                     assert(absolute_cf(u16_at(g, 9)));
                     lemma_absolute_fields(u16_at(g, 9) as u16);
+                    //# C16.area3d_text
                     assert(f@ =~= p1.push(':') + cell_text(u16_at(g, 9), u16_at(g, 5)));
                     assert(p1.push(':') =~= p1 + seq![':']);
                 }
@@ -635,13 +638,13 @@ pub assume_specification<P: std::str::pattern::Pattern> [str::strip_prefix::<P>]
                     assert(decoded(cp, done.last()).len() > 0);
                 }
             }
-//@@ before /if !reference\.name\.is_empty\(\)/#0of2
+//@@ before /break;/
                     proof {
                         // Id 0x000F: the PROJECTMODULES record ends the reference array
                         lemma_walk_end(t, done);
+                        //# C18.reference_names_in_order
+                        assert(h ==> names_match(references@, done, cp));
                     }
-//@@ before /break;/
-                    proof { assert(h ==> names_match(references@, done, cp)); }
 //@@ after /read_variable_record\(stream, [^;]*;/#0of4
                     let ghost r1 = stream@;
 //@@ after /check_variable_record\([^;]*;/#0of2
